@@ -13,7 +13,7 @@ SEARCH = {
     "C01": [["diff", "C01", "3", "3"]],
     "C02": [["diff", "C02", "3", "3"]],
     "C03": [["diff", "C03", "3", "3"]],
-    "C04": [["escape", "both", "3"], ["glob", "4"], ["regexkind"]],
+    "C04": [["escape", "both", "3", "matching"], ["glob", "4"], ["regexkind"]],
     "C05": [["validate"]],
     "C06": [["markdown"], ["leaves", "markdown"]],
     "C07": [["leaves", "cram"]],
@@ -31,7 +31,7 @@ THOROUGH = {
     "C01": [["diff", "C01", "3", "4"]],
     "C02": [["diff", "C02", "3", "4"]],
     "C03": [["diff", "C03", "3", "4"]],
-    "C04": [["axioms"], ["escape", "both", "3"], ["glob", "6"], ["regexkind"]],
+    "C04": [["axioms"], ["escape", "both", "3", "matching"], ["glob", "6"], ["regexkind"]],
     "C06": [["markdown"], ["leaves", "markdown"]],
     "C07": [["leaves", "cram"]],
     "C05": [["validate"]],
